@@ -1029,6 +1029,14 @@ impl SQLExpression for sql_ast::Expr {
 
             sql_ast::Expr::IsNull(_) | sql_ast::Expr::IsNotNull(_) => 5,
 
+            // a negative number literal is a unary minus as far as its text goes:
+            // negating it must give `-(-1)`, not `--1` (which starts a comment)
+            sql_ast::Expr::Value(v)
+                if matches!(&v.value, sql_ast::Value::Number(n, _) if n.starts_with('-')) =>
+            {
+                UnaryOperator::Minus.binding_strength()
+            }
+
             // all other items types bind stronger (function calls, literals, ...)
             _ => 20,
         }
